@@ -137,7 +137,7 @@ def build(lib):
             if name == 'RandomState':
                 def ctor(it_, a, k):
                     if not a or a[0] is None:
-                        it_.rng_log.append(('entropy', 'RandomState()', (), None, None))
+                        it_.rng_log.append(('entropy', 'RandomState()'))
                         s = it_.ctx.fresh_int('EntropyStream')
                         return SRandomState(s, 'entropy')
                     seed = to_num(a[0])
